@@ -6,7 +6,7 @@ import ast
 import re
 
 from ..carriers import slice_bounds
-from ..core import (AnalysisError, body_nodes, call_name, dotted, is_self_attr, key_text, kwarg,
+from ..core import (AnalysisError, body_nodes, bound_args, call_name, dotted, is_self_attr, key_text, kwarg,
                     local_defs, names_in, params, parent, stmts_of, unparse)
 from ..linform import NotPoly, Poly, eval_poly
 from ..normal import inline_temps
@@ -683,8 +683,92 @@ def run(prog, rep, tier):
     rep.floor('SIDES-binary', 4)
     rep.assumptions += ['equality of block values with numpy results is NOT decided',
                         'several label rules match normalised statements (sa/rules/c01.py)']
+    rep.rule('SLICE-neg-zero', 'a negative slice bound -E needs E != 0 at that point')
+    if check_neg_zero_slices(prog, rep) < 3:
+        raise AnalysisError('SLICE-neg-zero: the slices of _tensordot_transpose_axes / _tensordot_worker not found')
     return rep.finish(
         level='other',
         explanation='Bookkeeping clauses of C01 (leg labels propagated as documented; axes '
         'carriers re-indexed consistently; operand sides of the blockwise merge) decided on the '
         'current source of np_conserved.py. Values are not decided.')
+
+
+# ------------------------------------------------------------------ SLICE-neg-zero
+# negative slice bounds whose operand cannot be zero for a documented reason
+NEG_ZERO_OK = {
+    ('tenpy/linalg/np_conserved.py', '_tensordot_transpose_axes', 'a.legs[-axes:]'):
+        'zipped with b.legs[:axes]: for axes == 0 the second sequence is empty and so is the zip',
+}
+
+
+def _nonzero_guard(gs, text):
+    """do the conditions `gs` imply `text` != 0 ?"""
+    for t, pol, e in gs:
+        if isinstance(e, ast.Compare) and len(e.ops) == 1:
+            l, r, op = unparse(e.left), unparse(e.comparators[0]), e.ops[0]
+            if l == text and isinstance(e.comparators[0], ast.Constant):
+                c = e.comparators[0].value
+                if pol and ((isinstance(op, ast.Gt) and c >= 0) or (isinstance(op, ast.GtE) and c >= 1)
+                            or (isinstance(op, ast.NotEq) and c == 0)):
+                    return True
+                if pol and isinstance(op, ast.Eq) and isinstance(c, (int, float)) and c != 0:
+                    return True
+                if not pol and isinstance(op, ast.Eq) and c == 0:
+                    return True
+                if not pol and ((isinstance(op, ast.LtE) and c >= 0) or (isinstance(op, ast.Lt)
+                                                                        and c >= 1)):
+                    return True
+        if t == text and pol:
+            return True
+    return False
+
+
+def check_neg_zero_slices(prog, rep):
+    """SLICE-neg-zero: `x[:-k]` / `x[-k:]` mean "all but the last k" / "the last k" only for
+    k > 0: for k == 0 python reads `x[:0]` (nothing) and `x[0:]` (everything). A slice bound `-E`
+    with a non-constant E therefore needs a condition at that point (or at every call site, for a
+    parameter of a private function) that excludes E == 0, or the length-based form
+    `x[:len(x) - k]`."""
+    n = 0
+    for rel in (NPC, 'tenpy/linalg/charges.py'):
+        m = prog.module(rel)
+        for q, f in m.functions.items():
+            for sl in ast.walk(f):
+                if not isinstance(sl, ast.Slice):
+                    continue
+                for b in (sl.lower, sl.upper):
+                    if not (isinstance(b, ast.UnaryOp) and isinstance(b.op, ast.USub) and
+                            not isinstance(b.operand, ast.Constant)):
+                        continue
+                    text = unparse(b.operand)
+                    sub = parent(sl)
+                    n += 1
+                    ok = _nonzero_guard(guards_at(f, sl), text)
+                    why = 'guard' if ok else None
+                    if not ok and (rel, q, unparse(sub)) in NEG_ZERO_OK:
+                        ok, why = True, 'table'
+                    if not ok and isinstance(b.operand, ast.Name) and b.operand.id in params(f) \
+                            and f.name.startswith('_'):
+                        # parameter of a private worker: excluded at every call site?
+                        sites = []
+                        for q2, g in m.functions.items():
+                            for c in ast.walk(g):
+                                if isinstance(c, ast.Call) and call_name(c) == f.name:
+                                    ba = bound_args(c, f, skip_self=False)
+                                    arg = ba.get(b.operand.id)
+                                    if arg is not None:
+                                        sites.append(_nonzero_guard(guards_at(g, c),
+                                                                    unparse(arg)))
+                        if sites and all(sites):
+                            ok, why = True, 'call-sites'
+                    rep.instance('SLICE-neg-zero', {'function': q, 'slice': unparse(sub)[:60],
+                                                    'nonzero_by': why})
+                    if not ok:
+                        rep.violation('SLICE-neg-zero', m, q, 'neg-zero:' + unparse(sub)[:50],
+                                      '`%s`: for %s == 0 the bound -%s is 0, so the slice is %s '
+                                      'instead of %s; nothing at this point excludes %s == 0' %
+                                      (unparse(sub)[:60], text, text,
+                                       'empty' if b is sl.upper else 'the whole sequence',
+                                       'the whole sequence' if b is sl.upper else 'empty', text),
+                                      sl.lineno)
+    return n
